@@ -157,7 +157,7 @@ func runC20(c *Ctx) {
 		c.Law(ext.GetUrl().GetValue() == "http://example.org/e", "C20/extension-url", "extension carries the url", name, "")
 	}
 	// ---- mutators
-	urls := []string{"u1", "u2", "u3"}
+	urls := []string{"u1", "u2", "u3", "http://x/flag", "http://x/flag/", "http://x/flag2", "http://x/flag/sub", "HTTP://x/flag"}
 	trials := 1500
 	if c.thorough {
 		trials = 20000
